@@ -119,6 +119,8 @@ type Interp struct {
 	decs     map[*Loc]Value
 	hashSeen []string
 	uuidStrs map[*Term]Value
+	bolts    map[*Loc]*boltBucket
+	cursors  map[*Loc]*boltCursor
 	ghost    map[string]Value
 	conc     *concState
 	mapOrderOverride int
@@ -469,6 +471,8 @@ func (in *Interp) runOnce(fn *ssa.Function) {
 	in.initDone = map[*ssa.Package]bool{}
 	in.hashSeen = nil
 	in.uuidStrs = map[*Term]Value{}
+	in.bolts = map[*Loc]*boltBucket{}
+	in.cursors = map[*Loc]*boltCursor{}
 	in.mapOrderOverride = -1
 	in.steps = 0
 	in.depth = 0
@@ -899,7 +903,7 @@ func (in *Interp) eval(fr *Frame, v ssa.Value) Value {
 		}
 		return FuncV{fn: x.Fn.(*ssa.Function), binds: b}
 	case *ssa.MakeMap:
-		return MapV{&MapObj{}}
+		return MapV{&MapObj{floatKey: isFloat(x.Type().Underlying().(*types.Map).Key())}}
 	case *ssa.MakeChan:
 		n := int(in.concretize(in.get(fr, x.Size).(*Term), 0, 64, true))
 		return ChanV{&ChanObj{cap: n}}
@@ -1282,7 +1286,13 @@ func (in *Interp) valEq(a, b Value) *Term {
 
 func (in *Interp) mapFind(m *MapObj, k Value) int {
 	for i, ek := range m.keys {
-		if in.branch(in.valEq(ek, k)) {
+		var eq *Term
+		if m.floatKey {
+			eq = FCmp("fp.eq", ek.(*Term), k.(*Term)) // Go map semantics: -0 == +0, NaN never found
+		} else {
+			eq = in.valEq(ek, k)
+		}
+		if in.branch(eq) {
 			return i
 		}
 	}
